@@ -12,7 +12,7 @@ HEAD = subprocess.run("git -C /repo rev-parse --short HEAD", shell=True, capture
 sh(f"git -C /repo worktree add -q --detach {WT} {HEAD}")
 for pid in props:
     out = f"{prefix}-{pid.lower()}-out"
-    for k in (1, 2):
+    for k in (1, 2, 3):
         sid = f"{pid}-{first + k - 1}"
         if not os.path.exists(f"{out}/patch{k}.diff"):
             print(sid, "no delivery"); continue
